@@ -1,6 +1,7 @@
 import Driver.Common
 import Driver.GTreeIO
 import Driver.Flatten
+import Driver.C03Clip
 import GeosModel.Base.F64
 import GeosModel.Base.Env
 import GeosModel.Model.Overlay.Core
@@ -173,7 +174,9 @@ def check (stats : Bool) (line : String) : String :=
         let gcFlag := isGC ga.g || isGC gb.g
         let mixed := decide ((atomDims ga.g).length > 1) || decide ((atomDims gb.g).length > 1)
         let near := nearIncidence A.f B.f
-        let feats (needNew : Bool) := s!"gc={b01 gcFlag} mixed={b01 mixed} near={b01 near} new={b01 needNew}"
+        -- a (near-)incidence that is NOT exact: exact incidences (determinant 0) are decided exactly by the robust predicates
+        let inexact := near && inexactIncidence A.f B.f
+        let feats (needNew : Bool) := s!"gc={b01 gcFlag} mixed={b01 mixed} near={b01 near} inexact={b01 inexact} new={b01 needNew}"
         let evalRec (r : Rec) : Outcome :=
           match r.opv.splitOn ":" with
           | base :: var :: _ =>
@@ -293,5 +296,6 @@ def main (args : List String) : IO UInt32 := do
   match args with
   | ["overlay-grid"] | ["overlay-dbl"] | ["overlay"] => Driver.loop (← IO.getStdin) (← IO.getStdout) (Driver.C03.check false); return 0
   | ["overlay-core"] => Driver.loop (← IO.getStdin) (← IO.getStdout) Driver.C03.core; return 0
+  | ["overlay-input"] => Driver.loop (← IO.getStdin) (← IO.getStdout) Driver.C03Clip.check; return 0
   | ["overlay-stats"] => Driver.loop (← IO.getStdin) (← IO.getStdout) (Driver.C03.check true); return 0
   | _ => IO.eprintln "usage: drv_c03 overlay-grid|overlay-dbl"; return 2
